@@ -520,6 +520,34 @@ def run(repo: Repo, ctx) -> None:
            'pg quote_ident does not quote when needs_quoting says so',
            pqi.loc, sample='needs_quoting or force -> _quote_ident')
 
+    # path fact for both quote_ident functions: when needs_quoting says the
+    # name needs quotes, no return hands the name back as it came in --
+    # whatever other shortcut the function takes
+    from ..absint import Facts, open_returns
+    from ..cfg import CFG as _CFG
+    for qfn, label in ((qi, 'edgeql.quote.quote_ident'),
+                       (pqi, 'pgsql.common.quote_ident')):
+        p0 = qfn.params()[0]
+        nq = [norm(c) for c in ast.walk(qfn.node) if isinstance(c, ast.Call)
+              and (call_name(c) or '').split('.')[-1] == 'needs_quoting'
+              and c.args and norm(c.args[0]) == p0]
+        if not nq:
+            raise AnalysisError(f'C18.R3: {label} does not consult '
+                                f'needs_quoting on its argument any more')
+        gq = _CFG(qfn.node)
+        Fq = Facts({nq[0]: True, f'isinstance({p0}, pgast.Star)': False},
+                   qfn.node)
+        raw = [r for r in open_returns(gq, Fq) if r.value is not None
+               and any(norm(x) == p0 for x in Fq.leaves(r.value))]
+        ctx.ob('C18.R3', f'{label}:never-verbatim-when-quoting-needed',
+               not raw and bool(Fq.used),
+               f'{label} can return its argument unchanged although '
+               f'needs_quoting holds for it (line(s) '
+               f'{[getattr(r, "lineno", 0) for r in raw]}): a name '
+               f'containing the delimiter or a keyword reaches the '
+               f'statement text unquoted', qfn.loc,
+               sample=f'under {nq[0]}: no `return {p0}`')
+
     # ---- R4 sinks -----------------------------------------------------------------
     ctx.floor('C18.R4', 6)
     sg = repo.cls(f'{PGCG}.SQLSourceGenerator')
